@@ -631,7 +631,7 @@ class HDF5DataFrame(DataFrame):
 
         fields_to_use = [self._columns[f] for f in field_name_to_use]
 
-        with open(filepath, 'w') as f:
+        with open(filepath, 'w', encoding='utf-8', newline='') as f:
             # write header names
             f.write(_csv_line(field_name_to_use))
 
